@@ -421,6 +421,7 @@ void iter_test() {
       int act = choose(allow_erase_it ? 3 : 2);
       if (nocopy && act == 1) prune(); // --opt nocopy=1: the traverser only advances or erases
       if (act == 0) {
+        LockFree lf("iterator operator++");
         ++it;
       } else if (act == 1) { // continue on a copy, the original is destroyed first
         op_begin(I_COPY, k);
@@ -429,6 +430,7 @@ void iter_test() {
         it = std::move(it2);
         if (it == c->end() || K::get(it) != k) fail("ORACLE", "copy of an iterator does not refer to the same element");
         op_end();
+        LockFree lf("iterator operator++");
         ++it;
       } else {
         op_begin(I_ERASE_IT, k);
